@@ -322,6 +322,29 @@ def oracle(ctx, case, a):
             if got != a["hex"]:
                 ctx.fail("usage-dependent", case, "tags built (%s) from bytearrays the caller changed afterwards encode to %s" % (form, got[:80]))
                 break
+    if op == "enc" and a.get("r") == "ok" and len(a["hex"]) < 4000 and case["tags"]:
+        # ONE Tag object filled again and again (set / set_app_data) and encoded after each filling, twice
+        from bacpypes.primitivedata import Tag
+        import bacpypes.pdu as pdu_mod
+        t = Tag()
+        buf = pdu_mod.PDUData()
+        try:
+            for spec in case["tags"]:
+                data = bytes.fromhex(spec[3])
+                if spec[0] == 0 and spec[1] != 1 and spec[2] == len(data):
+                    t.set_app_data(spec[1], data)
+                else:
+                    t.set(spec[0], spec[1], spec[2], data)
+                once = pdu_mod.PDUData()
+                t.encode(once)
+                t.encode(buf)
+                if bytes(once.pduData) != expected_header(spec) + data:
+                    raise ValueError("a re-filled Tag object encodes to %s" % bytes(once.pduData).hex()[:60])
+            got = bytes(buf.pduData).hex()
+        except Exception as e:
+            got = "raised " + str(e)[:100]
+        if got != a["hex"]:
+            ctx.fail("usage-dependent", case, "one Tag object re-filled for each tag of the list and encoded: %s" % got[:100])
     if op == "enc":
         # decode(encode(ts)) == ts, every octet consumed; canonical headers
         back = impl({"op": "dec", "hex": a["hex"]})
@@ -526,6 +549,22 @@ def service_layer(ctx, rng):
         except Exception as e:
             ctx.fail("unexpected-exception", case, "encoding twice raised %s" % core.exc_kind(e))
         ctx.count("service-layer", ("enc", case["cls"]))
+    # a service tag stream with tags left over (a stray primitive, a whole open/close group) is refused by
+    # the service layer, not silently accepted
+    for (o, x, first) in firsts:
+        for extra in ("00", "2105", "3e3f", "1e21051f"):
+            case = {"op": "service-layer", "cls": o.__class__.__name__, "trailing": extra}
+            y = _copy_apdu(x)
+            y.pduData = bytearray(bytes(x.pduData) + bytes.fromhex(extra))
+            try:
+                fresh = o.__class__()
+                fresh.decode(y)
+                ctx.fail("trailing-accepted", case, "%s decoded a tag stream with trailing tags %s without complaint" % (case["cls"], extra))
+            except Exception as e:
+                k = core.exc_kind(e)
+                if k.startswith("python:") and type(e).__name__ not in ("TooManyArguments", "DecodingError", "InvalidTag", "InvalidParameterDatatype", "MissingRequiredParameter"):
+                    ctx.fail("unexpected-exception", case, "trailing tags: raised %s" % k)
+            ctx.count("service-layer", ("trailing", case["cls"], extra))
     # decode into used objects: an object that was ENCODED before, and one that DECODED something else before
     for (o, x, first), (o2, x2, first2) in zip(firsts, firsts[1:] + firsts[:1]):
         case = {"op": "service-layer", "cls": o.__class__.__name__, "after": o2.__class__.__name__}
